@@ -30,4 +30,15 @@ Definition handle_config (cmd : string) (args : list sexp) : option sexp :=
         end
     | _ => Some (err "bad args")
     end
+  else if String.eqb cmd "cfg.select" then
+    (* C20.selection_kept_or_refused on the live table: args = solver, device, method ("" = not given) *)
+    match args with
+    | [A sv; A dv; A mt] =>
+        Some (match select_method init_allowed_methods sv dv (match mt with EmptyString => None | _ => Some mt end) with
+              | SelRefused => L [A "refused"]
+              | SelKept m => L [A "kept"; A m]
+              | SelDefault m => L [A "default"; A m]
+              end)
+    | _ => Some (err "bad args")
+    end
   else None.
